@@ -28,6 +28,8 @@ const leaseTime = time.Hour
 
 // Sys is one DHCPv4 server configuration under exploration.
 type Sys struct {
+	FastPath bool      // with real kernel maps behind the loader and the native XDP program (C03)
+	fpProbes []FPProbe
 	Variant  string // "direct" | "relay"
 	NClients int
 	CIDR     string // pool network; unit u = base+u
@@ -54,14 +56,32 @@ func NewSys(variant string, nclients int, cidr string, nunits int, reqUnits []in
 	return s
 }
 
-func (s *Sys) Name() string { return fmt.Sprintf("dhcp4/%s/c%d/%s", s.Variant, s.NClients, s.CIDR) }
+func (s *Sys) Name() string {
+	if s.FastPath {
+		return fmt.Sprintf("dhcp4fp/%s/c%d/%s", s.Variant, s.NClients, s.CIDR)
+	}
+	return fmt.Sprintf("dhcp4/%s/c%d/%s", s.Variant, s.NClients, s.CIDR)
+}
+
+// WithFastPath returns a copy of s that runs the fast-path battery in every state.
+func (s *Sys) WithFastPath() *Sys {
+	c := *s
+	c.FastPath = true
+	c.fpProbes = fpBattery(s.NClients)
+	return &c
+}
 func (s *Sys) Config() map[string]any {
 	// usable: every host address except the gateway (unit 1), network (0) and broadcast (N-1)
 	var usable []int
 	for u := 2; u <= s.NUnits-2; u++ {
 		usable = append(usable, u)
 	}
-	return map[string]any{"impl": "dhcp.Server-" + s.Variant, "nclients": s.NClients, "usable": usable, "nunits": s.NUnits, "leaseticks": 2}
+	cfg := map[string]any{"impl": "dhcp.Server-" + s.Variant, "nclients": s.NClients, "usable": usable, "nunits": s.NUnits, "leaseticks": 2}
+	if s.FastPath {
+		cfg["impl"] = "dhcp.Server+dhcp_fastpath.c-" + s.Variant
+		cfg["probes"] = s.fpProbes
+	}
+	return cfg
 }
 func (s *Sys) Events() []core.Event { return s.events }
 
@@ -127,6 +147,7 @@ type inst struct {
 	// history digest that only refines node identity (never an oracle)
 	offAge map[string]int
 	decl   map[string]bool
+	fp     *fpState
 }
 
 func (s *Sys) New() core.Instance {
@@ -147,7 +168,16 @@ func (s *Sys) New() core.Instance {
 	if err != nil {
 		panic(err)
 	}
-	return &inst{s: s, srv: srv, pool: p, conn: &capConn{}, lastOffer: map[int]int{}, lastAck: map[int]int{}, start: time.Now(), offAge: map[string]int{}, decl: map[string]bool{}}
+	var fp *fpState
+	if s.FastPath {
+		fp = newFPState(loader)
+		// the pool was added before the maps existed: add it to the loader the way PoolManager.AddPool does
+		pm.RemovePool(1)
+		if err := pm.AddPool(p); err != nil {
+			panic(err)
+		}
+	}
+	return &inst{fp: fp, s: s, srv: srv, pool: p, conn: &capConn{}, lastOffer: map[int]int{}, lastAck: map[int]int{}, start: time.Now(), offAge: map[string]int{}, decl: map[string]bool{}}
 }
 
 func (in *inst) build(c int, alt bool, mt dhcpv4.MessageType, reqIP net.IP, ciaddr net.IP) *dhcpv4.DHCPv4 {
@@ -275,6 +305,11 @@ func (in *inst) Apply(ev core.Event) map[string]any {
 func (in *inst) noteAck(c int, rt string, ru int) {
 	if rt == "ACK" {
 		in.lastAck[c] = ru
+		if in.fp != nil && len(in.conn.out) > 0 {
+			if r, err := dhcpv4.FromBytes(in.conn.out[len(in.conn.out)-1]); err == nil {
+				in.fp.ackFields[c] = fieldsOf(r)
+			}
+		}
 	}
 }
 
@@ -309,7 +344,11 @@ func (in *inst) Observe() map[string]any {
 			}
 		}
 	}
-	return map[string]any{"lease": lease, "expired": expired, "altlease": altlease, "drain": []int{-9}}
+	obs := map[string]any{"lease": lease, "expired": expired, "altlease": altlease, "drain": []int{-9}}
+	if in.fp != nil {
+		obs["fp"] = in.fpObserve()
+	}
+	return obs
 }
 
 func (in *inst) Fingerprint() string {
@@ -340,7 +379,11 @@ func (in *inst) Fingerprint() string {
 		a, ok2 := in.lastAck[c]
 		lo = append(lo, fmt.Sprintf("%d:%v%d,%v%d", c, ok1, o, ok2, a))
 	}
-	return strings.Join(parts, ";") + "|A:" + strings.Join(al, ",") + "|V:" + strings.Join(av, ",") + "|U:" + strings.Join(ps.Unavailable, ",") + "|H:" + strings.Join(lo, ";") + core.Fingerprint(in.offAge, nil) + core.Fingerprint(in.decl, nil)
+	fpfp := ""
+	if in.fp != nil {
+		fpfp = "|FP:" + in.fp.fingerprint()
+	}
+	return fpfp + strings.Join(parts, ";") + "|A:" + strings.Join(al, ",") + "|V:" + strings.Join(av, ",") + "|U:" + strings.Join(ps.Unavailable, ",") + "|H:" + strings.Join(lo, ";") + core.Fingerprint(in.offAge, nil) + core.Fingerprint(in.decl, nil)
 }
 
 // Probe: which usable addresses can fresh clients still obtain (DISCOVER until no OFFER)?
@@ -363,4 +406,8 @@ func (in *inst) Probe() map[string]any {
 	return map[string]any{"drain": got}
 }
 
-func (in *inst) Close() {}
+func (in *inst) Close() {
+	if in.fp != nil {
+		in.fp.close()
+	}
+}
